@@ -4,7 +4,7 @@ Export ListNotations.
 Open Scope Z_scope.
 
 (* ---- extended integers: None = +infinity (np.inf) --------------------------- *)
-Definition ExtZ := option Z.
+Notation ExtZ := (option Z) (only parsing).
 Definition ext_min (a : ExtZ) (b : Z) : ExtZ :=
   match a with None => Some b | Some x => Some (Z.min x b) end.
 Definition ext_ltb_z (b : Z) (a : ExtZ) : bool :=      (* b < a *)
